@@ -427,7 +427,11 @@ fn gen_case(rng: &mut Rng, n: usize) -> Case {
                 // if a value assignment of the same spelling exists
                 let shadow = rng.chance(1, 3);
                 let types = if shadow { format!("{types}{} INTEGER ::= {}\n", names[pick], 700 + pick) } else { types };
-                Case { types, ty: t("Te@"), val: names[pick].clone(), expected: AV::Enum(names[pick].clone()), trailing_zeros_insignificant: false, as_default: true, form: if shadow { "enumerated/same-named-value-exists" } else { "enumerated" } }
+                // another ENUMERATED type, sorting before and after the governing one, has an enumeral of the same spelling with
+                // another number: the governing type decides (X.680 20.x)
+                let homonym = !shadow && rng.chance(1, 3);
+                let types = if homonym { t(&format!("{types}Ta@dec ::= ENUMERATED {{ other@, {} }}\nTz@dec ::= ENUMERATED {{ {}, zother@, zmore@ }}\n", names[pick], names[pick])) } else { types };
+                Case { types, ty: t("Te@"), val: names[pick].clone(), expected: AV::Enum(names[pick].clone()), trailing_zeros_insignificant: false, as_default: true, form: if shadow { "enumerated/same-named-value-exists" } else if homonym { "enumerated/homonym-in-another-type" } else { "enumerated" } }
             } else {
                 let k = 1 + rng.below(4);
                 let nn: Vec<(String, i128)> = (0..k).map(|i| (t(&format!("nq@x{i}")), rng.range(-50, 500) as i128)).collect();
@@ -435,7 +439,9 @@ fn gen_case(rng: &mut Rng, n: usize) -> Case {
                 let types = t(&format!("Tn@ ::= INTEGER {{ {} }}\n", nn.iter().map(|(n, v)| format!("{n}({v})")).collect::<Vec<_>>().join(", ")));
                 let shadow = rng.chance(1, 3);
                 let types = if shadow { format!("{types}{} INTEGER ::= {}\n", nn[pick].0, nn[pick].1 + 1000) } else { types };
-                Case { types, ty: t("Tn@"), val: nn[pick].0.clone(), expected: AV::Int(nn[pick].1), trailing_zeros_insignificant: false, as_default: true, form: if shadow { "integer/named-number/same-named-value-exists" } else { "integer/named-number" } }
+                let homonym = !shadow && rng.chance(1, 3);
+                let types = if homonym { t(&format!("{types}Ta@dec ::= INTEGER {{ {}({}) }}\nTz@dec ::= INTEGER {{ {}({}) }}\n", nn[pick].0, nn[pick].1 + 2000, nn[pick].0, nn[pick].1 + 3000)) } else { types };
+                Case { types, ty: t("Tn@"), val: nn[pick].0.clone(), expected: AV::Int(nn[pick].1), trailing_zeros_insignificant: false, as_default: true, form: if shadow { "integer/named-number/same-named-value-exists" } else if homonym { "integer/named-number/homonym-in-another-type" } else { "integer/named-number" } }
             }
         }
         11 | 12 => {
@@ -595,8 +601,16 @@ fn check_batch(cases: &[(usize, Case)], rep: &mut Report) {
             let name = format!("VQ{n}{}", suffix.to_uppercase());
             match m.find_const(&name) {
                 Some(it) => {
-                    if let Kind::Const { init, .. } = &it.kind {
+                    if let Kind::Const { init, ty, .. } = &it.kind {
                         sites.push((site.to_string(), it.text.clone(), Some(init)));
+                        // an enumerated constant is of the governing type, not of some other type that has such an enumeral
+                        if c.form.starts_with("enumerated") && ty != &c.ty {
+                            rep.violations.push(Violation {
+                                sig: format!("c07|constant-of-another-type|{}|{site}", c.form),
+                                what: format!("`{} ::= {}` ({site}): declared as `{ty}`: `{}`", c.ty, c.val, one_line(&it.text, 160)),
+                                replay: json!({"types": c.types, "type": c.ty, "value": c.val, "site": site, "emitted": it.text}),
+                            });
+                        }
                     }
                 }
                 None => rep.count(&format!("constant_absent[{site}/{}](warned; C10's subject)", c.form), 1),
